@@ -67,6 +67,24 @@ def lean_source_scan(files):
     return hits
 
 
+def import_closure(modules):
+    """Project-local transitive imports of the given Lean modules -> list of files."""
+    seen, todo = {}, list(modules)
+    while todo:
+        m = todo.pop()
+        if m in seen:
+            continue
+        f = LEAN / (m.replace(".", "/") + ".lean")
+        if not f.exists():
+            continue
+        seen[m] = f
+        for line in f.read_text().splitlines():
+            mm = re.match(r"\s*(?:public\s+)?import\s+([\w.]+)", line)
+            if mm:
+                todo.append(mm.group(1))
+    return sorted(seen.values())
+
+
 def lake_build(targets, timeout=3000):
     """Serialised `lake build`; returns (ok, log)."""
     WORK.mkdir(exist_ok=True)
@@ -229,7 +247,7 @@ def build_and_audit(ctx, proof_modules, audit_file, theorems):
         ctx.obligation("lake build " + " ".join(proof_modules), False, log[-1500:])
         return False
     ctx.obligation("lake build " + " ".join(proof_modules), True)
-    hits = lean_source_scan(sorted(LEAN.glob("SynKit*/**/*.lean")))
+    hits = lean_source_scan(import_closure(proof_modules))
     ctx.obligation("no sorry/admit/axiom/native_decide/bv_decide/implemented_by/unsafe in Lean sources", not hits, "; ".join(hits[:5]))
     rc, out = lean_run_file(audit_file)
     ax = parse_axioms(out)
